@@ -86,7 +86,8 @@ check("C16", "model_checking",
 
 check("C17", "exploration",
       "Exhaustive sweep mesh x operator family (Laplace/Helmholtz real+complex/modified Helmholtz/Maxwell) x operator x space pair "
-      "(whole grid, segments that are NOT a prefix of the element numbering, barycentric) x global quadrature order x near-field "
+      "(whole grid, segments that are NOT a prefix of the element numbering, normals flipped on a proper subset of the domains, "
+      "barycentric) x global quadrature order x near-field "
       "representation, with exafmm replaced by an exact direct summation: the full FMM-mode matrix (all unit vectors) and a complex "
       "vector against the dense-mode matrix; all potential operators likewise; two-grid operators; thorough tier also reproduces the "
       "shipped fmm_*.npy vectors within the tests' tolerance.",
@@ -172,7 +173,8 @@ check("C08", "exploration",
 
 check("C07", "exploration",
       "Exhaustive sweep over ordered pairs of disjoint grids (closed/closed, open/open, segmented/closed, screen/fan) x {single, "
-      "double layer} x {Laplace, Helmholtz real and complex, modified Helmholtz} x test/trial space kinds (incl. a segment space) x "
+      "double layer} x {Laplace, Helmholtz real and complex, modified Helmholtz} x test/trial space kinds (incl. segment spaces and "
+      "trial spaces with normals flipped on a proper subset of the domains) x "
       "orders {2,4,6}: every entry of the two-grid boundary matrix against sum_q w_q J psi_i(x_q) P[phi_j](x_q) with the library's "
       "potential operator at grid.map_to_point_cloud points (rounding); Maxwell magnetic field likewise with the x n trace; the "
       "electric field along the order ladder (quadrature class, flux-free test functions on open grids).",
